@@ -3,6 +3,7 @@
 
 #include <queue>
 #include <igris/sync/semaphore.h>
+#include <igris/util/verif_hook.h>
 
 namespace igris {
 
@@ -24,6 +25,7 @@ namespace igris {
         {
             sem.wait();
             queue.push(val);
+            IGRIS_VERIF_POINT("sq_push", this, val);
             sem.post();
         }
 
@@ -32,6 +34,7 @@ namespace igris {
             sem.wait();
             T val = queue.front();
             queue.pop();
+            IGRIS_VERIF_POINT("sq_pop", this, val);
             sem.post();
             return val;
         }
@@ -40,6 +43,7 @@ namespace igris {
         {
             sem.wait();
             size_t sz = queue.size();
+            IGRIS_VERIF_POINT("sq_size", this, sz);
             sem.post();
             return sz;
         }
